@@ -100,3 +100,12 @@ check("C13",
       design_ref="DESIGN.md 5/C13",
       level_text="exhaustive within the stated record domain and event alphabet",
       level_note="readiness announcement (OnReady) is checked at the manager level (l2node)")
+
+check("C04",
+      packages=["l2node"],
+      technique="exhaustive enumeration of (request kind x registry x validator answer vector x malformed variants x process restart) on a real manager over recording doubles",
+      rule="request in {new push/net, new pull/transport, new pull/net, restart push/net, restart pull/transport, restart pull/net} x registry in {{},{T},{U},{T,U}} x 96 validator answer vectors x {well-formed, no voucher, no selector, cid mismatch, other voucher} x {same manager, new manager on the store}; oracle: acceptance effects iff the registered validator was consulted once and accepted; refused otherwise; reply carries the validator's result and pause decision; bystander channel untouched; no panic. distinct = distinct outcome classes.",
+      design_ref="DESIGN.md 5/C04",
+      level_text="exhaustive over the stated input product",
+      level_note="transport double records calls; the mapping from returned errors to graphsync termination is checked in the transport harness",
+      min_nontrivial=2)
